@@ -12,7 +12,7 @@ ID = "C07"
 META = {
     "technique": "runtime monitoring: instance-level wrapper around algorithm.run() (and around the estimator's get_maximum_rates) inside real simulations; at every invocation the pre-state is read from the real network objects and the returned schedule is judged by independent oracles — phasor feasibility in plain complex arithmetic, EVSE acceptance in exact rationals, remaining amp-periods, estimator bound / uninterrupted minimum, zero for stations without an active session; warnings, exceptions and final energies of the run are judged too",
     "design_ref": "DESIGN.md section 6 C07",
-    "level_text": "exploration: hundreds (quick) / tens of thousands (thorough) of simulations on three-phase mixed-sign networks with binding limits and mixed continuous / finite-rate EVSEs, session ids different from station ids (sometimes equal to another station's id), all 5 sorts x {greedy, round-robin} x estimator {none, SimpleRampdown, fixed bounds} x uninterrupted on/off x continuous increments, two-stage and noisy batteries, nearly finished sessions; every scheduler invocation of every run is judged; max_recompute 2/3/5 with multi-period plans judged column by column; allow_overcharging; scenarios on the predefined Caltech/JPL/Office001 networks; schedulers built with default options unmentioned; algorithm objects that served another study with the same session ids on larger stations; round-robin increments 0.05 ... 2",
+    "level_text": "exploration: hundreds (quick) / tens of thousands (thorough) of simulations on three-phase mixed-sign networks with binding limits and mixed continuous / finite-rate EVSEs, session ids different from station ids (sometimes equal to another station's id), all 5 sorts x {greedy, round-robin} x estimator {none, SimpleRampdown, fixed bounds} x uninterrupted on/off x continuous increments, two-stage and noisy batteries, nearly finished sessions; every scheduler invocation of every run is judged; max_recompute 2/3/5 with multi-period plans judged column by column; allow_overcharging; scenarios on the predefined Caltech/JPL/Office001 networks; schedulers built with default options unmentioned; algorithm objects that served another study with the same session ids on larger stations; round-robin increments 0.05 ... 2; algorithm objects coming from a study abandoned mid-call, transient post-processing failures; a saturated feeder plus a car needing thousandths of an ampere-period",
     "level_note": "the algorithms hard-code the network's default tolerances, so networks use the defaults; feasibility margins within 1e-11(1+L) and pilots within 1e-9 A of an acceptance boundary are counted as boundary, not judged; the bound uses the loose form allowed by the statement: pilot <= min(remaining amp-periods, station max, max(estimator bound, uninterrupted minimum pilot if the option is on))",
 }
 LEVEL = "exploration"
